@@ -174,4 +174,12 @@ def probAgentChoice (o : VectorOrder) (tb : Table) (nActions : Nat) (u : Unif) :
   | none => .raised
   | some ws => choice nActions ws u
 
+/-! ### RandomAgent (random_agent.py) -/
+
+/-- `RandomAgent.get_action`: `action_manager.get_action(action_manager.space.sample())` with
+`space = Discrete(len(action_map))`; `k` is the integer `sample()` returns.  `raised`: gymnasium refuses `Discrete(0)`
+(empty action map), and an index outside the map would be a `KeyError`. -/
+def randomAgentChoice (nActions : Nat) (k : Nat) : ChoiceOut :=
+  if nActions = 0 then .raised else if k < nActions then .chose k else .raised
+
 end Primaite.Agents
